@@ -1198,4 +1198,25 @@ example :
 example : confUser [("STAGEX".toList, [])] = none ∧ confUser [("global".toList, [])] = none := by
   refine ⟨by rfl, by rfl⟩
 
+/-- **stage_blueprint_repeats_platform_global**: the stage scope of the flattened description (two blueprint
+scopes only) keeps the documented order default stage < platform global < platform stage: when the default
+stage blueprint says something and `P` is not the default platform, the platform's GLOBAL blueprint is layered
+between the default-stage and the platform-stage blueprint (`lookup_override` then gives the value of every
+leaf route); on the default platform, or under an empty default stage blueprint, nothing is repeated. -/
+theorem stage_blueprint_repeats_platform_global (d : Desc) (P : S) (i : Nat) :
+    (falsy (bpStage d defaultName i) = false → P ≠ defaultName →
+      stageBpBaseRaw d P i = override (bpStage d defaultName i) (bpGlobal d P) ∧
+      (clash (bpStage d defaultName i) (bpGlobal d P) = false → stageBpBase d P i = .ok (stageBpBaseRaw d P i))) ∧
+    (stageBpBaseRaw d defaultName i = bpStage d defaultName i) ∧
+    (falsy (bpStage d defaultName i) = true → stageBpBaseRaw d P i = bpStage d defaultName i) := by
+  refine ⟨?_, ?_, ?_⟩
+  · intro hf hP
+    have hr : repeatsPlatformGlobal d P i = true := by simp [repeatsPlatformGlobal, hf, hP]
+    refine ⟨by simp [stageBpBaseRaw, hr], ?_⟩
+    intro hc
+    simp [stageBpBase, stageBpBaseRaw, hr, hc]
+  · simp [stageBpBaseRaw, repeatsPlatformGlobal]
+  · intro hf
+    simp [stageBpBaseRaw, repeatsPlatformGlobal, hf]
+
 end St4sd.C04
